@@ -37,7 +37,7 @@ type Ctl struct {
 	// per-table counters
 	Reads, Verdicts, Offers, Applies, FlushDone, OffWritten map[string]int
 	OpenOff, Ready, FieldsSet, FieldsDone                   map[string]int
-	Events                                                  int
+	Events, ScanStarts                                      int
 	// abstract schema of the tables (for Open lines)
 	Abs map[string]TableAbs
 	// extra callback on every hook (fault injection, crash images)
@@ -214,6 +214,7 @@ func (c *Ctl) Hook(ev string, kv ...interface{}) {
 		c.FieldsSet[table]++
 		c.emit(map[string]interface{}{"a": "RSFields", "t": table})
 	case "iter.start":
+		c.ScanStarts++
 		c.emit(map[string]interface{}{"a": "QueryStart", "t": table, "file": kv[1], "mem": kv[2]})
 	case "flush.begin":
 		c.emit(map[string]interface{}{"a": "FlushBegin", "t": table, "noRaw": kv[2], "sorted": kv[3], "count": kv[1]})
